@@ -207,6 +207,12 @@ fn summarize(ra: &Relayout<i64>, rb: &Relayout<i64>, rf: &Relayout<f64>) -> Vec<
         let w: Array1<i64> = (0..a.shape()[ax]).map(|k| (k as i64 % 3) + 1).collect();
         out.push(format!("wsum_axis{}={:?}", ax, a.to_owned().weighted_sum_axis(Axis(ax), &w).map(|x| x.iter().copied().collect::<Vec<_>>())));
         out.push(format!("fold_axis_skipnan{}={:?}", ax, f.fold_axis_skipnan(Axis(ax), 0i64, |acc, x| acc + x.raw() as i64).iter().copied().collect::<Vec<_>>()));
+        {
+            let mut c4 = rf.clone();
+            out.push(format!("map_axis_skipnan_mut{}={:?}", ax, c4.view_mut().map_axis_skipnan_mut(Axis(ax), |lane| lane.iter().fold(0i64, |acc, x| acc + x.raw() as i64 * 3 + 1)).iter().copied().collect::<Vec<_>>()));
+            let mut c5 = rf.clone();
+            out.push(format!("quantile_axis_skipnan_mut{}={:?}", ax, c5.view_mut().quantile_axis_skipnan_mut(Axis(ax), n64(0.5), &Lower).map(|x| x.iter().map(|v| v.to_bits()).collect::<Vec<_>>())));
+        }
     }
     if nd == 2 {
         let m = a.to_owned().into_dimensionality::<Ix2>().unwrap();
